@@ -11,7 +11,8 @@
 (*   sinkstart g arr / sinkend g    a sink Write call on bytes in arr      *)
 (* Invariants (the trace forms of PoolDiscipline / NoAliasedReuse):        *)
 (*   no buffer or event is taken while somebody holds it, and a buffer     *)
-(*   comes out of the pool empty (whatever happened to its last user);     *)
+(*   comes out of the pool empty (whatever happened to its last user) and  *)
+(*   goes back once per take;                                              *)
 (*   no sink write starts on, or is in flight on, the backing array of a   *)
 (*   buffer that is pooled or held by another goroutine;                   *)
 (*   no appender is handed an event object that is pooled.                 *)
@@ -48,7 +49,8 @@ BufGet == /\ E.ev = "bufget"
           /\ holder' = Set(holder, E.b, E.g)
           /\ UNCHANGED <<arrOf, evHolder, inflight>>
 BufPut == /\ E.ev = "bufput"
-          /\ Flag(\E g \in DOMAIN inflight : inflight[g] = E.arr /\ inflight[g] # 0, "buffer pooled while a sink write reads it")
+          /\ Flag((\E g \in DOMAIN inflight : inflight[g] = E.arr /\ inflight[g] # 0) \/ (E.b \in DOMAIN holder /\ holder[E.b] = 0),
+                  IF E.b \in DOMAIN holder /\ holder[E.b] = 0 THEN "buffer pooled twice" ELSE "buffer pooled while a sink write reads it")
           /\ holder' = Set(holder, E.b, 0) /\ arrOf' = Set(arrOf, E.b, E.arr)
           /\ UNCHANGED <<evHolder, inflight>>
 EvGet == /\ E.ev = "evget"
